@@ -45,6 +45,7 @@ class Campaign:
     quick_wall = 50
     thorough_wall = 540
     chunk = 40
+    coarse = False
     armed = {}
     rule = ""
     assumptions = []
@@ -68,11 +69,12 @@ class Campaign:
 
     def evaluate(self, sc):
         res = self.execute(sc)
-        findings, mstats = match.compare(sc, res, stop_at_first=False)
+        m = match.Matcher(sc, res, coarse=self.coarse)
+        findings = m.run(stop_at_first=False)
         viol, unarmed = self.classify(sc, res, findings)
-        extra = self.extra_checks(sc, res)
-        viol.extend(extra)
-        return {"violations": viol, "unarmed": unarmed, "mstats": mstats, "res": res}
+        if not viol:
+            viol.extend(self.extra_checks(sc, res, m, unarmed))
+        return {"violations": viol, "unarmed": unarmed, "mstats": m.stats, "res": res}
 
     DESYNC = ("op_exc", "op_state", "model_field", "seq.extra", "seq.missing", "seq.nested_inside",
               "nested_count", "cb_raised", "harness.missing_op", "harness.skipped_live")
@@ -95,7 +97,7 @@ class Campaign:
             break
         return viol, unarmed
 
-    def extra_checks(self, sc, res):
+    def extra_checks(self, sc, res, m, unarmed):
         return []
 
     # ------------------------------------------------------------------ evidence helpers
